@@ -12,6 +12,17 @@ included, not only contiguous splits of a vector), `rows := ps.flatten` is the i
 (`groupRows` = the per-partition `HashMap<K, Vec<V>>` loop, `mergeGroups` = the extend-merge of all maps;
 `HashMap` = insertion-ordered association list). The sequential engine computes `mergeGroups [groupRows rows]`;
 `gbk_contract` shows the two are the same list, and every theorem is restated for the sequential run.
+
+**What the ORDER inside a group means for this property.** C04 says a key's group holds "exactly the input values
+carrying that key — each one once": a MULTISET statement (`gbk_flatten_perm`). The model proves more — `gbk_values`
+gives the values in input order — and the correspondence requests carry `canon=top` (groups compared as sequences
+against the insertion-ordered model, because seq = par AS SEQUENCES is what the code guarantees and what C01 needs).
+The harness keeps the two apart: C04's own oracle signatures (`gbk-duplicate-key-in-output`,
+`gbk-groups-do-not-flatten-to-input`, `gbk-empty-group-in-output`, and the comparison with the plain-vector reference
+made in `harness/src/c04.rs`, which canonicalises both sides with `deep`) compare the values of a group as multisets;
+a different in-group order ALONE is reported by `par-differs-from-seq` (C01's statement) or as a model/implementation
+disagreement — never by a C04 signature. Validated with the seeded change C01-4 (GBK merge appends the shorter run onto
+the longer one): C04's run reports only `par-differs-from-seq`, no `gbk-*` / `differs-from-reference`.
 -/
 namespace IB
 
